@@ -163,19 +163,28 @@ def rig(group, scripts_dir, layouts, parts, tick, race=False, out=None, seed=Non
 
 
 def parse_races(files):
-    """Race detector reports in which BOTH conflicting accesses are made by library code (top frame of each
-    access stack in uhppote-core); races between harness code and itself are the harness' own business."""
+    """Race detector reports in which BOTH conflicting accesses are owned by library code: the owner of an access is the
+    first frame of its stack that is not Go runtime / standard library code (a write made by reflect.Value.Set on behalf
+    of the codec is the codec's). Races between harness code and itself are the harness' own business."""
+    def owner(frames):
+        for fr in frames:
+            if fr.startswith("main."):                                  # the harness
+                return fr
+            if "/" in fr and "." in fr.split("/")[0]:                   # a module path that starts with a domain
+                return fr
+        return frames[0] if frames else ""
     races = []
     for f in files:
         txt = open(f).read()
         for block in txt.split("==================")[1:]:
             if "DATA RACE" not in block:
                 continue
-            tops = []
-            for m in re.finditer(r"(?:Write|Read|Previous write|Previous read|Atomic[^\n]*) (?:at|of)[^\n]*\n\s+([^\n]+)", block):
-                tops.append(m.group(1).strip())
-            if len(tops) >= 2 and all("github.com/uhppoted/uhppote-core" in t for t in tops[:2]):
-                races.append([t.split("(")[0] if "(" in t and not t.startswith("github.com/uhppoted/uhppote-core/uhppote.(") else t for t in tops[:2]])
+            owners = []
+            for m in re.finditer(r"(?:Write|Read|Previous write|Previous read|Atomic[^\n]*) (?:at|of)[^\n]*\n((?:[ \t]+[^\n]+\n)+)", block):
+                frames = [ln.strip() for ln in m.group(1).splitlines() if ln.strip() and not ln.strip().startswith("/") and not re.match(r"^\S+\.go:\d+", ln.strip())]
+                owners.append(owner(frames))
+            if len(owners) >= 2 and all("github.com/uhppoted/uhppote-core" in t for t in owners[:2]):
+                races.append([t.rsplit("(", 1)[0] for t in owners[:2]])
     return races
 
 
